@@ -383,4 +383,25 @@ PROPS["C12"] = {
     "level_note": "regex semantics external; engine and z3 trusted.",
 }
 
+PROPS["C05"] = {
+    "contracts": ["contracts/C05_atomicity.py"],
+    "level": "other",
+    "extra": [{"name": "C05/bounded[deterministic 2-thread scheduler, <=3 context switches]", "kind": "bounded", "tiers": ("quick",), "cmd": ["/venv/bin/python", "native/c05_sched.py"], "timeout": 900},
+              {"name": "C05/bounded[deterministic 2-thread scheduler, more switch points]", "kind": "bounded", "tiers": ("thorough",), "cmd": ["/venv/bin/python", "native/c05_sched.py", "--thorough"], "timeout": 3000}],
+    "assumptions": ["schedules are NOT explored by the deciding step: contracts prove the lock discipline (ownership of every guarded field, no re-entry, never two locks at once, "
+                    "one critical section per call) for all schedules at once; atomicity then follows by the TRUSTED reduction argument (critical sections of a data-race-free "
+                    "program are serialisable in lock-acquisition order — Lipton; not mechanised)",
+                    "single-field unlocked getters (get_balance, get_state, get_debt, statistics) and apply_debt_interest (writes _debt unlocked; outside this property's operation set) "
+                    "are not part of the claim",
+                    "the quorum / guard-loop sharing of one store (anchors) is covered because every access goes through the four methods under contract",
+                    "the scheduler of native/c05_sched.py is a replay aid and bounded stand-in (6 scenarios, line-granularity points, <=3 context switches)"],
+    "trusted_base": ["Lipton reduction", "threading.Lock semantics", "sys.settrace line events as scheduling points (bounded part)"],
+    "explanation": "Deductive part: for consume, regenerate, convert_nadh_to_atp, transfer_to — every read/write of the ten guarded fields happens with the store lock held (ownership "
+                   "obligations at each access on every path), the lock is never re-acquired, no lock is taken (directly or via a lock-taking callee) while another is held, and all "
+                   "guarded accesses lie in one critical section; the last clause fails for transfer_to (known finding). Per critical section the sequential contracts of C04 give: no "
+                   "negative balance, no lost update, successful spends <= available. Bounded part: a deterministic two-thread scheduler checks serialisability of outcomes.",
+    "level_text": "Lock-discipline proof + trusted reduction theorem + bounded schedule stand-in; one recorded known finding.",
+    "level_note": "No schedule exploration in the deciding step; engine and z3 trusted.",
+}
+
 NOT_APPLICABLE = {}
